@@ -283,6 +283,22 @@ var plants = func() []plant {
 		{name: "rebind-global-load", stmt: true, lines: []string{"load(\"a.star\", G0 = \"A_DICT\")"}, where: func(s *slot) bool { return s.stmt && s.top }, violates: func(o gen.Opts) bool { return !o.GlobalReassign }},
 		{name: "load-same-name-twice", stmt: true, lines: []string{"load(\"a.star\", zz8 = \"A_DICT\")", "load(\"a.star\", zz8 = \"A_INT\")"}, where: func(s *slot) bool { return s.stmt && s.top },
 			violates: func(o gen.Opts) bool { return !o.GlobalReassign }, errLines: func(gen.Opts) []int { return []int{1} }},
+		// point-of-use resolution under GlobalReassign: a use directly in the file block that precedes the first
+		// binding of the name (and is not predeclared) is undefined - statically; without the option the name is a
+		// global throughout the file and the use is only a dynamic error
+		{name: "reassign-self-reference", stmt: true, lines: []string{"ubd7 = ubd7"}, where: func(s *slot) bool { return s.stmt && s.top }, violates: func(o gen.Opts) bool { return o.GlobalReassign }},
+		{name: "reassign-self-in-expr", stmt: true, lines: []string{"ubd7 = [1] + ubd7"}, where: func(s *slot) bool { return s.stmt && s.top }, violates: func(o gen.Opts) bool { return o.GlobalReassign }},
+		{name: "reassign-self-in-first-iterable", stmt: true, lines: []string{"ubd7 = [q for q in ubd7]"}, where: func(s *slot) bool { return s.stmt && s.top }, violates: func(o gen.Opts) bool { return o.GlobalReassign }},
+		{name: "reassign-self-in-lambda-default", stmt: true, lines: []string{"ubd8, ubd7 = 1, (lambda a = ubd7: a)"}, where: func(s *slot) bool { return s.stmt && s.top }, violates: func(o gen.Opts) bool { return o.GlobalReassign }},
+		{name: "reassign-self-in-index-target", stmt: true, lines: []string{"G1[ubd7], ubd7 = 1, 2"}, where: func(s *slot) bool { return s.stmt && s.top }, violates: func(o gen.Opts) bool { return o.GlobalReassign }},
+		{name: "reassign-use-then-bind", stmt: true, lines: []string{"t(\"p\", ubd7)", "ubd7 = 1"}, where: func(s *slot) bool { return s.stmt && s.top },
+			violates: func(o gen.Opts) bool { return o.GlobalReassign }, errLines: func(gen.Opts) []int { return []int{0} }},
+		{name: "reassign-def-default-then-bind", stmt: true, lines: []string{"def fz7(a = ubd7):", "    return a", "ubd7 = 1"}, where: func(s *slot) bool { return s.stmt && s.top },
+			violates: func(o gen.Opts) bool { return o.GlobalReassign }, errLines: func(gen.Opts) []int { return []int{0} }},
+		{name: "reassign-use-in-function-then-bind-ok", stmt: true, lines: []string{"def fz7():", "    return ubd7", "ubd7 = 1"}, where: func(s *slot) bool { return s.stmt && s.top }, violates: never},
+		{name: "reassign-use-in-later-clause-ok", stmt: true, lines: []string{"ubd7 = [q for q in [] if q in ubd7]"}, where: func(s *slot) bool { return s.stmt && s.top }, violates: never},
+		{name: "reassign-bind-then-use-ok", stmt: true, lines: []string{"ubd7 = 1", "ubd7 = ubd7 + 1"}, where: func(s *slot) bool { return s.stmt && s.top }, violates: func(o gen.Opts) bool { return !o.GlobalReassign },
+			errLines: func(gen.Opts) []int { return []int{1} }},
 		{name: "rebind-local-ok", stmt: true, lines: []string{"a = 1", "a = 2", "a += 3"}, where: func(s *slot) bool { return s.stmt && s.inFunc }, violates: never},
 		{name: "def-dup-param", stmt: true, lines: []string{"def bad9(u, u):", "    pass"}, where: anyStmt, violates: always},
 		{name: "def-required-after-optional", stmt: true, lines: []string{"def bad9(u = 1, v):", "    pass"}, where: anyStmt, violates: always},
